@@ -22,6 +22,12 @@ int main(void)
 			fd = open(path, O_RDONLY);
 			st = kdump_open_fd(ctx, fd);
 			if (st != KDUMP_OK) { printf("> open-failed %s %s\n", kstatus_name(st), kdump_get_err(ctx)); }
+			else if (!ps) {
+				/* declared as a dump without a page size: say what the library thinks */
+				kdump_attr_t at;
+				st = kdump_get_attr(ctx, "arch.page_size", &at);
+				printf("> nops %s\n", st == KDUMP_OK ? "set" : kstatus_name(st));
+			}
 		} else if (sscanf(line, "read %u %" SCNu64 " %" SCNu64, &as, &addr, &len) == 3) {
 			size_t n = len, i;
 			unsigned char *buf = __real_malloc(n + 64);
@@ -76,6 +82,11 @@ int main(void)
 			addrxlat_map_set(map, 0, &r);
 			addrxlat_sys_set_map(sys, ADDRXLAT_SYS_MAP_KPHYS_MACHPHYS, map);
 			addrxlat_sys_decref(sys); addrxlat_ctx_decref(ax);
+		} else if (sscanf(line, "setps %u", &ps) == 1) {
+			/* the page size becomes known after the dump was opened without one */
+			kdump_attr_t at; at.type = KDUMP_NUMBER; at.val.number = ps;
+			kdump_status st = kdump_set_attr(ctx, "arch.page_size", &at);
+			printf("> setps %s%s\n", kstatus_name(st), c16_monitor(ctx, st));
 		} else if (sscanf(line, "cache %u", &as) == 1) {
 			kdump_attr_t at; at.type = KDUMP_NUMBER; at.val.number = as;
 			if (kdump_set_attr(ctx, "cache.size", &at) != KDUMP_OK) puts("> cache-failed");
